@@ -91,6 +91,9 @@ type RuleStat struct {
 	Instances int    `json:"instances"`
 	Failed    int    `json:"failed"`
 	Floor     int    `json:"confirmed_floor"`
+	// Filtered: instances the rule matched that are not obligations of this property (see Report.SubWhere); they count
+	// towards the floor — the anchor was found — but are not part of the verdict
+	Filtered int `json:"instances_not_needed_for_this_property,omitempty"`
 }
 
 func NewReport(w *World, prop, tier string, seed int64) *Report {
@@ -114,6 +117,9 @@ func (r *Report) add(rule, construct, where, what string, ok bool, why string) *
 		return &Obligation{Rule: rule, OK: ok}
 	}
 	if r.keep != nil && !r.keep(rule, construct) {
+		if st := r.Rules[rule]; st != nil {
+			st.Filtered++
+		}
 		return &Obligation{Rule: rule, OK: ok}
 	}
 	st := r.Rules[rule]
@@ -222,8 +228,8 @@ func (r *Report) Finish() int {
 	}
 	for _, name := range r.ruleOrder {
 		st := r.Rules[name]
-		if st.Instances < st.Floor {
-			msg := fmt.Sprintf("rule %s matched %d instance(s), below the confirmed floor %d: the rule would pass vacuously (anchor lost?)", name, st.Instances, st.Floor)
+		if st.Instances+st.Filtered < st.Floor {
+			msg := fmt.Sprintf("rule %s matched %d instance(s), below the confirmed floor %d: the rule would pass vacuously (anchor lost?)", name, st.Instances+st.Filtered, st.Floor)
 			if !anyFail {
 				fatalf("%s", msg)
 			}
@@ -303,6 +309,12 @@ func (r *Report) finishControl() int {
 	fmt.Printf("CONTROL-SUMMARY obligations=%d violations=%d\n", len(r.Obligations), n)
 	if n > 0 {
 		return 1
+	}
+	// the vacuity guard of the real run: a rule below its confirmed floor gives no verdict (exit 2)
+	for _, name := range r.ruleOrder {
+		if st := r.Rules[name]; st.Instances+st.Filtered < st.Floor {
+			fatalf("rule %s matched %d instance(s), below the confirmed floor %d: the rule would pass vacuously (anchor lost?)", name, st.Instances+st.Filtered, st.Floor)
+		}
 	}
 	return 0
 }
